@@ -16,7 +16,6 @@ import json
 import os
 import re
 import shutil
-import sys
 
 import tlc
 from conf_rlist import print_summary
@@ -255,7 +254,16 @@ def run_conf(w, events, rng):
                 a.update(py)
                 argsame = py == snap
             elif op == 'eq':
-                other = {s: a[s] for s in a} if kind == 'dict' else objs[e['b'] - 1]
+                if kind == 'dict':
+                    other = {s: a[s] for s in a}
+                elif kind == 'reordered':           # the same content, inserted in the reverse order at both levels
+                    other = copy.deepcopy(a)
+                    for s in list(other)[::-1]:
+                        tab = other[s]
+                        del other[s]
+                        other[s] = {k: tab[k] for k in list(tab)[::-1]} if isinstance(tab, dict) else tab
+                else:
+                    other = objs[e['b'] - 1]
                 b = bool(a == other)
                 if bool(a != other) == b:
                     exc = 'NeIsNotTheNegationOfEq'
@@ -287,6 +295,8 @@ def run_conf(w, events, rng):
                 obs['tv'].append(dict(id=i, tree=w.tree(toml.loads(str(objs[i - 1])))))
             except Exception as ex:  # pylint: disable=broad-except
                 obs['tv'].append(dict(id=i, tree={'?' + _exc(ex): {}}))
+            if 'args' in obs['trees'][i - 1]:         # vars(args) of a real `valjean run` holds functions: no evaluable repr
+                continue
             try:
                 obs['rv'].append(dict(id=i, tree=w.tree(eval(repr(objs[i - 1]), {'Config': lambda d: d}))))     # pylint: disable=eval-used
             except Exception as ex:  # pylint: disable=broad-except
@@ -414,7 +424,9 @@ def consts(ctx, **over):
 
 def judge(ctx, wd, traces, tag):
     """TLC (ConfigTrace.tla) judges recorded traces: list of failing (step, clause) per trace."""
-    tj = tlc.json_dump(os.path.join(wd, 'cf_%s.json' % tag), traces)
+    tj = os.path.join(wd, 'cf_%s.json' % tag)
+    with open(tj, 'w') as f:
+        f.write(json.dumps(traces))          # (json.dump streams through the slow pure-python encoder)
     oj = os.path.join(wd, 'cf_%s_out.json' % tag)
     cfg = tlc.write_cfg(os.path.join(wd, 'cf_%s.cfg' % tag), spec='TSpec',
                         constants=consts(ctx, Toks=frozenset(['x', 'y', 'z', 'w', 'J']), StrToks=frozenset(['x', 'z']), MaxObjs=4, MaxOps=0),
@@ -451,7 +463,7 @@ def short(e):
             'setin': lambda: '%s.query(%s,%s)[%s]=%s' % (a, e['s'], e['k'], e['k2'], v(e['v'])),
             'del': lambda: 'del %s[%s]' % (a, e['s']), 'get': lambda: '%s.get%s' % (a, tuple([e['s'], e['k'], e['k2']][:e['n']])),
             'getdef': lambda: '%s.get(%s,default)' % (a, e['s']), 'copy': lambda: '%s-copy(%s)' % (kd, a),
-            'update': lambda: '%s.update(%s)' % (a, t(e['m'])), 'eq': lambda: '%s==%s' % (a, 'dict(%s)' % a if kd == 'dict' else 'c%d' % e['b']),
+            'update': lambda: '%s.update(%s)' % (a, t(e['m'])), 'eq': lambda: '%s==%s' % (a, '%s(%s)' % (kd, a) if kd else 'c%d' % e['b']),
             'round': lambda: '%s-roundtrip(%s)' % (kd, a),
             'consume': lambda: '%s[%s](%s,%s%s)' % (kd, e['k2'], a, e['k'], '' if e['v']['t'] == 'none' else ',arg=' + v(e['v']))}[op]()
 
@@ -464,10 +476,10 @@ class Notes:
         e = tr['events'][step - 1]
         key = 'Config/%s/%s' % (clause, e['op'])
         if e.get('kind'):
-            key += '/' + e['kind']
+            key += '/' + ('dict' if e['kind'] == 'dictrev' else e['kind'])
         if clause == 'state-other':
             prev = [x['kind'] for x in tr['events'][:step] if x['op'] == 'copy']
-            key += '/after-%s-copy' % prev[-1] if prev else ''
+            key += '/after-%s-copy' % ('shallow' if 'shallow' in prev else prev[-1]) if prev else ''
         ex = dict(ops=[short(x) for x in tr['events'][:step]], observed={k: v for k, v in e['obs'].items() if k not in ('tv', 'rv', 'lens') or clause.endswith('view') or clause == 'len'})
         cur = self.obs.get(key)
         if cur is None:
@@ -575,8 +587,8 @@ def random_conf(rng, length):
         elif r < 0.82:
             ev('update', a=a, m=rtree())
         elif r < 0.90:
-            if rng.random() < 0.15:
-                ev('eq', a=a, kind='dict')
+            if rng.random() < 0.3:
+                ev('eq', a=a, kind=rng.choice(['dict', 'reordered']))
             else:
                 ev('eq', a=a, b=rng.randint(1, n))
         else:
@@ -630,7 +642,7 @@ def run(ctx, wd):
     with open(wj) as f:
         wit = json.load(f)
     missing = [n for n, r in zip(wit['names'], wit['reached']) if not r]
-    if missing or len(wit['names']) < 14:
+    if missing or len(wit['names']) < 15:
         raise tlc.MachineryError('witnesses not reachable in Config.tla: %s' % missing)
     # 2. spec -> code: replay every maximal history; remember TLC's state after every prefix
     states = {}
@@ -652,60 +664,69 @@ def run(ctx, wd):
         nenum = len(traces)
         ctx.count(evaluations=sum(len(t['events']) for t in traces))
         # 3. code -> spec: random histories on the real class, the real parser, a real `valjean run`
-        nrand = ctx.pick(250, 4000)
+        nrand = ctx.pick(250, 2500)
         for _ in range(nrand):
             traces.append(dict(kind='conf', events=run_conf(w, random_conf(rng, rng.randint(3, 10)), rng)))
         ncli = ctx.pick(6, 60)
         for _ in range(ncli):
-            m = {s: {k: leaf(rng.choice(['x', 'z', 'y'])) for k in rng.sample(['log', 'out', 'rep', 'k'], rng.randint(0, 3))}
+            # (a `valjean run` makes directories of the roots: strings only there)
+            m = {s: {k: leaf(rng.choice(['x', 'z'] if s == 'path' else ['x', 'z', 'y'])) for k in rng.sample(['log', 'out', 'rep', 'k'], rng.randint(0, 3))}
                  for s in rng.sample(['path', 's'], rng.randint(0, 2))}
             first = dict(op='from', a=0, b=0, s='', k='', k2='', n=0, v=NONE, m=m, kind='clirun')
-            rest = [e for e in random_conf(rng, 4) if e['op'] in ('get', 'consume', 'eq', 'getdef') and e['a'] <= 2 and e['b'] <= 2]
+            rest = [e for e in random_conf(rng, 4) if e['op'] in ('get', 'consume', 'eq', 'getdef') and e['a'] <= 2 and e['b'] <= 2
+                    and e['kind'] != 'reordered']          # (vars(args) holds bound methods: a deep copy of them is another object)
             traces.append(dict(kind='conf', events=run_conf(w, [first] + rest, rng)))
-        npath = ctx.pick(150, 2000)
+        npath = ctx.pick(150, 1000)
         for _ in range(npath):
             traces.append(dict(kind='path', events=run_path(w, random_path(rng, rng.randint(2, 7)), rng)))
         ctx.count(evaluations=sum(len(t['events']) for t in traces[nenum:]))
     shutil.rmtree(os.path.join(wd, 'world'), ignore_errors=True)
-    # 4. TLC judges everything (chunks), then the negative self-test on traces it accepted
+    # 4. TLC judges everything (chunks).  Negative self-test in the same JVM start: copies of some traces with one recorded
+    # field changed; the copy of every trace TLC accepts must be rejected
+    picked = rng.sample(range(len(traces)), ctx.pick(60, 300))
+    ntr = len(traces)
+    allt = traces + [corrupt(traces[i], rng) for i in picked]
     failing = []
     step = 6000
-    for k in range(0, len(traces), step):
-        failing += judge(ctx, wd, traces[k:k + step], 'batch%d' % (k // step))
+    for k in range(0, len(allt), step):
+        failing += judge(ctx, wd, allt[k:k + step], 'batch%d' % (k // step))
+    pairs = [(i, failing[ntr + j]) for j, i in enumerate(picked) if not failing[i]]
+    failing = failing[:ntr]
+    if len(pairs) < 20:
+        raise tlc.MachineryError('negative self-test: only %d conforming traces among the %d picked' % (len(pairs), len(picked)))
+    for i, fl in pairs:
+        if not fl:
+            raise tlc.MachineryError('negative self-test: ConfigTrace accepted a corrupted copy of %s' % [short(e) for e in traces[i]['events']])
     ctx.count(traces=len(traces))
     for tr, fl in zip(traces, failing):
         if any(c == 'not-enabled' for _, c in fl):
             raise tlc.MachineryError('the generator produced an event the model does not take: %s' % [short(e) for e in tr['events']])
         for s, c in first_failures(fl):
             notes.add(tr, s, c)
-    # cross-check of the two oracles: the final state TLC dumped for an enumerated history vs the replay
+    # cross-check of the two oracles: the state TLC dumped after every prefix of an enumerated history vs the replay, up
+    # to the first step ConfigTrace rejects
     ncross = 0
     for tr, fl, h in zip(traces[:nenum], failing[:nenum], origin):
         if tr['kind'] != 'conf':
             continue
-        want = [norm_tree(o['tree']) for o in states[h]['objs']]
-        got = tr['events'][-1]['obs']['trees']
-        agrees = want == got
-        judged_ok = not any(c.startswith('state') for _, c in fl)
-        if agrees != judged_ok and not (fl and fl[0][0] < len(tr['events'])):
-            raise tlc.MachineryError('ConfigTrace and the dump of Config.tla disagree on %s: dump %s, replay %s, clauses %s'
-                                     % ([short(e) for e in tr['events']], want, got, fl))
-        ncross += 1
+        for j, e in enumerate(tr['events'], 1):
+            want = [norm_tree(o['tree']) for o in states[h[:j]]['objs']]
+            got = e['obs']['trees']
+            judged_ok = not any(s == j and c.startswith('state') for s, c in fl)
+            if (want == got) != judged_ok:
+                raise tlc.MachineryError('ConfigTrace and the dump of Config.tla disagree on %s: dump %s, replay %s, clauses %s'
+                                         % ([short(x) for x in tr['events'][:j]], want, got, fl))
+            ncross += 1
+            if any(s == j for s, _ in fl):
+                break
     good = [t for t, fl in zip(traces, failing) if not fl]
-    if len(good) < 20:
-        raise tlc.MachineryError('fewer than 20 conforming traces: the negative self-test has nothing to corrupt')
-    bad = [corrupt(t, rng) for t in rng.sample(good, ctx.pick(40, 200))]
-    caught = judge(ctx, wd, bad, 'negative')
-    missed = [t for t, fl in zip(bad, caught) if not fl]
-    if missed:
-        raise tlc.MachineryError('negative self-test: ConfigTrace accepted a corrupted trace: %s' % json.dumps(missed[0])[:600])
     kinds = {}
     for tr in traces:
         for e in tr['events']:
             k = e['op'] + ('/' + e['kind'] if e.get('kind') else '')
             kinds[k] = kinds.get(k, 0) + 1
     ctx.cov['config'] = dict(histories_enumerated=nenum, random_histories=nrand, cli_runs=ncli, random_path_histories=npath,
-                             traces_judged=len(traces), conforming=len(good), cross_checked=ncross, corrupted_rejected=len(bad),
+                             traces_judged=len(traces), conforming=len(good), states_cross_checked=ncross, corrupted_rejected=len(pairs),
                              witnesses=wit['names'], operations=dict(sorted(kinds.items())),
                              observations={k: v for k, v in sorted(notes.obs.items())})
     print_summary('Config', 'config', notes.obs, strip='Config/')
